@@ -615,11 +615,30 @@ func vAofOrderRun(t *testing.T) {
 			e.write(dir, "rewrite.aof", cfg, []vAofRec{rec}, nil)
 			want = append(want, rec)
 		}
+		// every fourth directory: records with LARGE values, so that a file's value file is longer than the reader's buffer (cfg * 64 bytes)
+		// and value frames lie across the buffer's end (the continuation read of a partly buffered frame)
+		bigValues := it%4 == 3
+		if bigValues {
+			cfg = []uint{64, 64, 128}[r.Intn(3)]
+		}
 		for i := 0; i < nfiles; i++ {
 			var recs []vAofRec
-			for j := 0; j < 1+r.Intn(2); j++ {
-				rec := vAofGenRec(r, T, seq, false)
+			nrec := 1 + r.Intn(2)
+			if bigValues {
+				nrec = 3 + r.Intn(4)
+			}
+			for j := 0; j < nrec; j++ {
+				rec := vAofGenRec(r, T, seq, bigValues)
 				rec.buf[57], rec.buf[58], rec.buf[59], rec.buf[60] = 0, 0, 0, 0
+				if bigValues {
+					n := 700 + r.Intn(1500)
+					b := make([]byte, 4+n)
+					b[0], b[1] = byte(n), byte(n>>8)
+					for k := 0; k < n; k++ {
+						b[4+k] = byte(k*7 + seq)
+					}
+					rec.data = b
+				}
 				seq++
 				recs = append(recs, rec)
 			}
